@@ -114,3 +114,24 @@ Theorem C10_aligned : forall n J p lam Vt tol pref, wfmat n J -> J <> [] ->
   agg_aligned RN lam Vt tol pref J.
 Proof. exact agg_aligned_perm. Qed.
 Print Assumptions C10_aligned.
+
+(* ---- GradDrop under a fixed seed (added): the draws u_j belong to the columns, so permuting the rows
+   TOGETHER WITH the leak vector leaves every coordinate unchanged (no tie-freeness needed: the sign
+   purity and the masked sums are symmetric functions of the zipped (leak_i, J_ij) list) ---- *)
+From TJ.proofs Require Import GradDropPermProofs.
+Theorem C10_graddrop_coordinate : forall leak leak' col col' u,
+  length leak = length col -> length leak' = length col' ->
+  Permutation (List.combine leak col) (List.combine leak' col') ->
+  graddrop_coord RN leak' col' u = graddrop_coord RN leak col u.
+Proof. exact graddrop_coord_perm. Qed.
+Print Assumptions C10_graddrop_coordinate.
+Theorem C10_graddrop : forall n J J' leak leak' U, wfmat n J ->
+  length leak = length J -> length leak' = length J' ->
+  Permutation (List.combine leak J) (List.combine leak' J') ->
+  agg_graddrop RN (Some leak') U J' = agg_graddrop RN (Some leak) U J.
+Proof. exact graddrop_Permutation. Qed.
+Print Assumptions C10_graddrop.
+Theorem C10_graddrop_default_leak : forall n J J' U, wfmat n J -> Permutation J J' ->
+  agg_graddrop RN None U J' = agg_graddrop RN None U J.
+Proof. exact graddrop_Permutation_noleak. Qed.
+Print Assumptions C10_graddrop_default_leak.
